@@ -236,6 +236,10 @@ func (p *Prog) generateOne(fn *ssa.Function, sp *spec.FuncSpec, splits []splitVa
 	vc.typedPtrs = sp.TypedPtrs
 	vc.wfHeap = sp.WFHeap
 	vc.namedInv = sp.NamedInv
+	arrvalMin = arrvalDefault
+	if sp.ArrWin && arrvalMin > 16 {
+		arrvalMin = 16 // scalar arrays of 16 or more elements are read as one window value (see load)
+	}
 	vc.mapCardOn = sp.MapCard
 	vc.reveal = map[string]bool{}
 	for _, r := range sp.Reveal {
